@@ -768,21 +768,24 @@ Proof.
 Qed.
 Print Assumptions C02_envelope_never_panics_closed.
 
-(* KMS envelope over an AES-CTR-HMAC data key (model/EnvelopeDekEtm.v), closed over the AES-CTR-HMAC
-   model: Decrypt returns p exactly for the envelopes Encrypt can build (for some serialised data key
-   the key-encryption AEAD encrypts), and never panics *)
+(* KMS envelope over an AES-CTR-HMAC data key (model/EnvelopeDekEtm.v), closed over the AES-CTR-HMAC model
+   and the protobuf wire model: Decrypt returns p exactly for the envelopes Encrypt can build around SOME byte
+   string that unmarshals to a valid key (any protobuf encoding, any template's sizes: the envelope AEAD
+   consults only the template's type URL) with an IV of that key's size, and never panics.
+   (lenN c <= MaxInt holds of every Go slice.) *)
 Theorem C02_envelope_ctrhmac_dek_accepts_exactly :
   forall (aes : bytes -> bytes -> bytes) (hmacs : N -> bytes -> bytes -> bytes),
     (forall k b, length (aes k b) = 16%nat) ->
     (forall h hl, hash_len h = Some hl -> forall k m, length (hmacs h k m) = hl) ->
     forall kek_enc kek_dec kivlen, kek_rt kek_enc kek_dec kivlen -> kek_only kek_enc kek_dec kivlen ->
-    forall ivsz c ad p, wfb c -> lenN c <= MaxInt ->
-      (env_dec kek_dec (etm_dek_dec aes hmacs ivsz) c ad = Ok p <->
-       exists dek kekiv dekiv, length kekiv = kivlen /\ length dekiv = ivsz /\
-         env_enc kek_enc (etm_dek_enc aes hmacs ivsz) dek kekiv dekiv p ad = Ok c).
+    forall c ad p, wfb c -> lenN c <= MaxInt ->
+      (env_dec kek_dec (etm_dek_dec aes hmacs) c ad = Ok p <->
+       exists dek h k kekiv dekiv, etm_dek_parse dek = Some (h, k) /\
+         length kekiv = kivlen /\ length dekiv = ek_iv k /\
+         env_enc kek_enc (etm_dek_enc aes hmacs) dek kekiv dekiv p ad = Ok c).
 Proof.
-  intros aes hmacs HA HH ke kd kl HK HKO ivsz c ad p Hw Hc.
-  exact (env_accept_iff_etm aes hmacs HA HH ke kd kl ivsz c ad p HK HKO Hw Hc).
+  intros aes hmacs HA HH ke kd kl HK HKO c ad p Hw Hc.
+  exact (env_accept_iff_etm aes hmacs HA HH ke kd kl c ad p HK HKO Hw Hc).
 Qed.
 Print Assumptions C02_envelope_ctrhmac_dek_accepts_exactly.
 
@@ -791,10 +794,10 @@ Theorem C02_envelope_ctrhmac_dek_never_panics :
     (forall k b, length (aes k b) = 16%nat) ->
     (forall h hl, hash_len h = Some hl -> forall k m, length (hmacs h k m) = hl) ->
     forall kek_dec, (forall c ad, kek_dec c ad <> Panic) ->
-    forall ivsz c ad, env_dec kek_dec (etm_dek_dec aes hmacs ivsz) c ad <> Panic.
+    forall c ad, env_dec kek_dec (etm_dek_dec aes hmacs) c ad <> Panic.
 Proof.
-  intros aes hmacs HA HH kd HK ivsz c ad.
-  exact (env_dec_no_panic_etm aes hmacs HA HH kd ivsz c ad HK).
+  intros aes hmacs HA HH kd HK c ad.
+  exact (env_dec_no_panic_etm aes hmacs HA HH kd c ad HK).
 Qed.
 Print Assumptions C02_envelope_ctrhmac_dek_never_panics.
 
